@@ -82,6 +82,25 @@ def run(tier):
             feat["chain_inst"] += i["base"] in names
             feat["zero_arg_inst"] += not i["args"]
         feat["priorities"] += "<" in m["seps"]
+    # ---- the reader's own trace on a sample of the models: every structural callback with its key arguments and every setPath XPath that
+    # XmlReader.tla predicts for the document must be what the real reader does (B3 on the universe's shapes, not only on the mutated base documents)
+    import readerconf
+    rnd2 = __import__("random").Random(c.seed)
+    smp = list(models)
+    rnd2.shuffle(smp)
+    smp = smp[:(150 if quick else 1500)]
+    rdocs = [{"id": "g%d%s" % (k, "w" if ws else "n"), "what": "model", "ws": ws, "tree": readerconf.model_tree(e["m"])} for k, e in enumerate(smp) for ws in ((k % 2 == 0),)]
+    rc = readerconf.compare(c, rdocs, "plain", "models")
+    nrd = 0
+    for x in rc:
+        if not x["agree"]:
+            nrd += 1
+            if nrd <= 3:
+                k = next((i for i, (a, b) in enumerate(zip(x["spec"], x["real"])) if a != b), min(len(x["spec"]), len(x["real"])))
+                print("DRIFT property=C04 XmlReader.tla: on a generated model the transcribed reader and the real one part at event %d: spec %s, real %s (outcomes %s / %s)" % (
+                    k, x["spec"][k:k + 1], x["real"][k:k + 1], x["spec_outcome"], x["real_outcome"]))
+    c.cov["reader_traces_on_models"] = len(rc)
+    c.cov["reader_trace_disagreements_on_models"] = nrd
     c.cov["traces_validated_against_impl"] = ncmp
     c.cov["evaluations"] = ncmp
     c.cov["distinct_nontrivial"] = sum(1 for e in models if any(t["edges"] for t in e["m"]["templs"]))
